@@ -6,6 +6,9 @@
 //!           observation points; different ids have different keys; point n = G * secret n.
 //!           One Coq case per (seed, style, id): secret keys, keys_id, commitment seed and released
 //!           secrets against Model/Keys.v evaluated over the Gallina SHA-256 / HKDF.
+//! `adv`   — a real channel advanced through the protocol handler; every API that hands out a
+//!           per-commitment point or secret, at every state and after restarts, against the
+//!           derivation for the number asked (see below).
 //! `store` — VLS's CounterpartyCommitmentSecrets against Model/Secrets.v on the same index
 //!           sequences (descending, with gaps, wrong secrets, repeats, malformed), fed with the real
 //!           released secrets of a real channel.  Monitor: after a descending feed every earlier
@@ -20,7 +23,18 @@ use lightning_signer::lightning::sign::ChannelSigner;
 use lightning_signer::node::Node;
 use lightning_signer::policy::validator::CounterpartyCommitmentSecrets;
 use lightning_signer::signer::derive::KeyDerivationStyle;
+use lightning_signer::bitcoin::secp256k1::ecdsa::Signature;
+use lightning_signer::bitcoin::BlockHash;
 use lightning_signer::util::test_utils::key::make_test_counterparty_points;
+use lightning_signer::util::test_utils::{
+    channel_commitment, counterparty_sign_holder_commitment, make_test_channel_setup, make_test_counterparty_keys,
+    TestChannelContext, TestNodeContext,
+};
+use vls_protocol::model::{self, BitcoinSignature, PubKey};
+use vls_protocol::msgs::{self, Message, SerBolt};
+use vls_protocol::serde_bolt::Array;
+use vls_protocol_signer::approver::PositiveApprover;
+use vls_protocol_signer::handler::{ChannelHandler, Handler, InitHandler, RootHandler};
 use serde_json::json;
 use std::collections::BTreeMap;
 use std::panic::{catch_unwind, AssertUnwindSafe};
@@ -805,12 +819,410 @@ fn store(args: &Args) {
     );
 }
 
+// -------------------------------------------------------------------------------------------- adv
+//
+// A real channel that advances several holder commitments through the protocol handler
+// (ValidateCommitmentTx2 / RevokeCommitmentTx at hsmd protocol 4, 5, 6).  At every channel state,
+// and again after restarts, EVERY way of obtaining a per-commitment point or secret is asked for
+// every number in reach -- including replays of old revocations -- and the answer is compared
+// with the derivation for the number that was ASKED: secret k = build_commitment_secret(seed of
+// the channel, 2^48-1-k), point k = G * secret k.  The asked-number -> secret map goes to Coq,
+// where the commitment seed and the secrets are recomputed from (node seed, channel id).
+
+const VALUE: u64 = 3_000_000;
+
+fn make_handler(node: &Arc<Node>, proto: u32, peer_id: [u8; 33], dbid: u64) -> ChannelHandler {
+    let mut init = InitHandler::new(0, node.clone(), Arc::new(PositiveApprover()), proto);
+    let m = msgs::HsmdInit {
+        key_version: model::Bip32KeyVersion { pubkey_version: 0, privkey_version: 0 },
+        chain_params: BlockHash::all_zeros(),
+        encryption_key: None,
+        dev_privkey: None,
+        dev_bip32_seed: None,
+        dev_channel_secrets: None,
+        dev_channel_secrets_shaseed: None,
+        hsm_wire_min_version: 2,
+        hsm_wire_max_version: proto,
+    };
+    init.handle(Message::HsmdInit(m)).expect("init");
+    let root: RootHandler = init.into();
+    root.for_new_client(1, PubKey(peer_id), dbid)
+}
+
+fn to_bsig(s: &Signature) -> BitcoinSignature {
+    BitcoinSignature { signature: model::Signature(s.serialize_compact()), sighash: 1 }
+}
+
+struct Adv {
+    world: World,
+    node: Arc<Node>,
+    node_id: PublicKey,
+    id: ChannelId,
+    peer: [u8; 33],
+    dbid: u64,
+    proto: u32,
+    handler: ChannelHandler,
+    cctx: TestChannelContext,
+    cseed: [u8; 32],
+    secp: Secp256k1<lightning_signer::bitcoin::secp256k1::All>,
+    /// asked commitment number -> secret handed out for it (first answer), and by which call
+    secrets: BTreeMap<u64, (String, String)>,
+    violations: Vec<serde_json::Value>,
+    history: Vec<String>,
+    answers: BTreeMap<String, u64>,
+    refused: u64,
+}
+
+impl Adv {
+    fn exp_secret(&self, k: u64) -> Option<[u8; 32]> {
+        if k > INITIAL {
+            None
+        } else {
+            Some(build_commitment_secret(&self.cseed, INITIAL - k))
+        }
+    }
+    fn exp_point(&self, k: u64) -> Option<PublicKey> {
+        self.exp_secret(k).map(|s| PublicKey::from_secret_key(&self.secp, &SecretKey::from_slice(&s).unwrap()))
+    }
+    fn next(&self) -> u64 {
+        let slot = self.node.get_channel(&self.id).expect("slot");
+        let g = slot.lock().unwrap();
+        match &*g {
+            ChannelSlot::Ready(c) => c.enforcement_state.next_holder_commit_num,
+            _ => 0,
+        }
+    }
+    fn got_point(&mut self, api: &str, asked: u64, p: &[u8]) {
+        *self.answers.entry(format!("{}:point", api)).or_insert(0) += 1;
+        let want = self.exp_point(asked).map(|q| q.serialize().to_vec());
+        if want.as_deref() != Some(p) {
+            // which number does it belong to, if any nearby
+            let actual = (0..64u64).find(|k| self.exp_point(*k).map(|q| q.serialize().to_vec()).as_deref() == Some(p));
+            self.violations.push(json!({
+                "what": format!("{} handed out a per-commitment point that is not the point of the number asked", api),
+                "asked_point_number": asked, "belongs_to_number": actual, "next_holder_commit_num": self.next(),
+                "history": self.history.clone()}));
+        }
+    }
+    fn got_secret(&mut self, api: &str, asked: u64, s: &[u8]) {
+        *self.answers.entry(format!("{}:secret", api)).or_insert(0) += 1;
+        let want = self.exp_secret(asked);
+        if want.as_ref().map(|w| &w[..]) != Some(s) {
+            let actual = (0..64u64).find(|k| self.exp_secret(*k).as_ref().map(|w| &w[..]) == Some(s));
+            self.violations.push(json!({
+                "what": format!("{} handed out a per-commitment secret that is not at index 2^48-1-k of the channel's BOLT-3 tree for the number k asked", api),
+                "asked_secret_number": asked, "belongs_to_number": actual, "next_holder_commit_num": self.next(),
+                "history": self.history.clone()}));
+        }
+        match self.secrets.get(&asked) {
+            None => {
+                self.secrets.insert(asked, (hexs(s), api.to_string()));
+            }
+            Some((old, api0)) =>
+                if *old != hexs(s) {
+                    let api0 = api0.clone();
+                    self.violations.push(json!({
+                        "what": format!("the secret of one commitment number differs between two requests ({} then {})", api0, api),
+                        "asked_secret_number": asked, "next_holder_commit_num": self.next(), "history": self.history.clone()}));
+                    // keep the latest too, so that the Coq case sees the deviating value
+                    self.secrets.insert(asked, (hexs(s), api.to_string()));
+                },
+        }
+    }
+
+    /// counterparty-signed ValidateCommitmentTx2 for holder commitment n
+    fn validate_msg(&self, n: u64) -> Option<Message> {
+        let (to_h, to_c) = if n == 0 { (VALUE - 1000, 0) } else { (1_000_000, VALUE - 20_000 - 1_000_000) };
+        let nctx = TestNodeContext { node: self.node.clone(), secp_ctx: Secp256k1::signing_only() };
+        let r = catch_unwind(AssertUnwindSafe(|| {
+            let mut ctx = channel_commitment(&nctx, &self.cctx, n, 1100, to_h, to_c, vec![], vec![]);
+            counterparty_sign_holder_commitment(&nctx, &self.cctx, &mut ctx)
+        }));
+        let (sig, hs) = r.ok()?;
+        Some(Message::ValidateCommitmentTx2(msgs::ValidateCommitmentTx2 {
+            commitment_number: n,
+            feerate: 1100,
+            to_local_value_sat: to_h,
+            to_remote_value_sat: to_c,
+            htlcs: Array(vec![]),
+            signature: to_bsig(&sig),
+            htlc_signatures: Array(hs.iter().map(to_bsig).collect()),
+        }))
+    }
+
+    /// ValidateCommitmentTx2{n}: below protocol 5 it revokes n-1 in the same step
+    fn validate(&mut self, n: u64, tag: &str) -> bool {
+        let msg = match self.validate_msg(n) {
+            Some(m) => m,
+            None => return false,
+        };
+        self.history.push(format!("{}validate:{}", tag, n));
+        let r = catch_unwind(AssertUnwindSafe(|| self.handler.handle(msg).map(|r| r.as_vec())));
+        match r {
+            Ok(Ok(bytes)) => {
+                if let Ok(Message::ValidateCommitmentTxReply(rep)) = msgs::from_vec(bytes) {
+                    self.got_point("ValidateCommitmentTxReply", n + 1, &rep.next_per_commitment_point.0);
+                    if let Some(s) = rep.old_commitment_secret {
+                        if n >= 1 {
+                            self.got_secret("ValidateCommitmentTxReply", n - 1, &s.0[..]);
+                        } else {
+                            self.violations.push(json!({"what": "a secret was disclosed with commitment 0", "history": self.history.clone()}));
+                        }
+                    }
+                }
+                true
+            }
+            _ => {
+                self.refused += 1;
+                false
+            }
+        }
+    }
+
+    /// RevokeCommitmentTx{k}: secret k, point k + 2
+    fn revoke_msg(&mut self, k: u64, tag: &str) -> bool {
+        self.history.push(format!("{}revoke:{}", tag, k));
+        let r = catch_unwind(AssertUnwindSafe(|| {
+            self.handler
+                .handle(Message::RevokeCommitmentTx(msgs::RevokeCommitmentTx { commitment_number: k }))
+                .map(|r| r.as_vec())
+        }));
+        match r {
+            Ok(Ok(bytes)) => {
+                if let Ok(Message::RevokeCommitmentTxReply(rep)) = msgs::from_vec(bytes) {
+                    self.got_point("RevokeCommitmentTxReply", k + 2, &rep.next_per_commitment_point.0);
+                    self.got_secret("RevokeCommitmentTxReply", k, &rep.old_commitment_secret.0[..]);
+                }
+                true
+            }
+            _ => {
+                self.refused += 1;
+                false
+            }
+        }
+    }
+
+    /// every other way of asking, at the current state; none of these may change the keys handed out
+    fn probe(&mut self, rng: &mut Rng) {
+        let next = self.next();
+        self.history.push(format!("probe@next={}", next));
+        let node = self.node.clone();
+        let id = self.id.clone();
+        for k in 0..=next + 2 {
+            let r = catch_unwind(AssertUnwindSafe(|| node.with_channel_base(&id, |b| b.get_per_commitment_point(k))));
+            if let Ok(Ok(p)) = r {
+                self.got_point("get_per_commitment_point", k, &p.serialize());
+            } else {
+                self.refused += 1;
+            }
+            let r = catch_unwind(AssertUnwindSafe(|| node.with_channel_base(&id, |b| b.get_per_commitment_secret(k))));
+            if let Ok(Ok(s)) = r {
+                self.got_secret("get_per_commitment_secret", k, &s[..]);
+            } else {
+                self.refused += 1;
+            }
+            let r = catch_unwind(AssertUnwindSafe(|| {
+                node.with_channel_base(&id, |b| Ok(b.get_per_commitment_secret_or_none(k)))
+            }));
+            if let Ok(Ok(Some(s))) = r {
+                self.got_secret("get_per_commitment_secret_or_none", k, &s[..]);
+            }
+            let r = catch_unwind(AssertUnwindSafe(|| {
+                self.handler
+                    .handle(Message::GetPerCommitmentPoint(msgs::GetPerCommitmentPoint { commitment_number: k }))
+                    .map(|r| r.as_vec())
+            }));
+            if let Ok(Ok(bytes)) = r {
+                if let Ok(Message::GetPerCommitmentPointReply(rep)) = msgs::from_vec(bytes) {
+                    self.got_point("GetPerCommitmentPointReply", k, &rep.point.0);
+                    if let Some(s) = rep.secret {
+                        if k >= 2 {
+                            self.got_secret("GetPerCommitmentPointReply", k - 2, &s.0[..]);
+                        }
+                    }
+                }
+            } else {
+                self.refused += 1;
+            }
+            let r = catch_unwind(AssertUnwindSafe(|| {
+                self.handler
+                    .handle(Message::GetPerCommitmentPoint2(msgs::GetPerCommitmentPoint2 { commitment_number: k }))
+                    .map(|r| r.as_vec())
+            }));
+            if let Ok(Ok(bytes)) = r {
+                if let Ok(Message::GetPerCommitmentPoint2Reply(rep)) = msgs::from_vec(bytes) {
+                    self.got_point("GetPerCommitmentPoint2Reply", k, &rep.point.0);
+                }
+            }
+        }
+        // replays of revocations: revoke_previous_holder_commitment(N) answers (point N+1, secret N-1);
+        // N == next with nothing pending is refused, N < next is the replay branch
+        let mut ns: Vec<u64> = (1..=next + 1).collect();
+        if rng.chance(1, 2) {
+            ns.reverse();
+        }
+        for n in ns {
+            self.history.push(format!("replay-revoke_previous_holder_commitment:{}", n));
+            let r = catch_unwind(AssertUnwindSafe(|| {
+                node.with_channel(&id, |chan| chan.revoke_previous_holder_commitment(n))
+            }));
+            match r {
+                Ok(Ok((p, s))) => {
+                    self.got_point("revoke_previous_holder_commitment", n + 1, &p.serialize());
+                    if let Some(s) = s {
+                        self.got_secret("revoke_previous_holder_commitment", n - 1, &s[..]);
+                    }
+                }
+                _ => self.refused += 1,
+            }
+        }
+        if self.proto >= 5 {
+            for k in 0..next.saturating_sub(1) {
+                self.revoke_msg(k, "replay-");
+            }
+        } else if next >= 2 {
+            // the legacy ValidateCommitmentTx replays the revocation too
+            for n in [next - 1, next.saturating_sub(2).max(1)] {
+                self.validate(n, "replay-");
+            }
+        }
+    }
+
+    fn restart(&mut self) {
+        self.history.push("restart".into());
+        self.node = self.world.restart(&self.node_id);
+        self.handler = make_handler(&self.node, self.proto, self.peer, self.dbid);
+    }
+}
+
+fn adv(args: &Args) {
+    let mut rng = Rng::new(args.seed ^ 0x616476);
+    let mut answers_total: BTreeMap<String, u64> = BTreeMap::new();
+    let (mut n_refused, mut n_restart, mut max_next, mut n_replays) = (0u64, 0u64, 0u64, 0u64);
+    for case in 0..args.n {
+        let seed = rng.bytes32();
+        let style = if case % 2 == 0 { KeyDerivationStyle::Native } else { KeyDerivationStyle::Ldk };
+        let proto = [4u32, 5, 6][(case / 2) % 3];
+        let world = World::new(World::default_policy(), seed, style);
+        let node = world.new_node();
+        let node_id = node.get_id();
+        let secp = Secp256k1::new();
+        let peer = PublicKey::from_secret_key(&secp, &SecretKey::from_slice(&rng.bytes32()).unwrap_or(SecretKey::from_slice(&[9u8; 32]).unwrap())).serialize();
+        let dbid = gen_dbid(&mut rng);
+        let (id, _) = node.new_channel(dbid, &peer, &node).expect("new_channel");
+        let mut setup = make_test_channel_setup();
+        setup.channel_value_sat = VALUE;
+        node.setup_channel(id.clone(), None, setup.clone(), &lightning_signer::bitcoin::bip32::DerivationPath::master())
+            .expect("setup");
+        let nctx = TestNodeContext { node: node.clone(), secp_ctx: Secp256k1::signing_only() };
+        let cp_keys = make_test_counterparty_keys(&nctx, &id, VALUE);
+        let cctx = TestChannelContext { channel_id: id.clone(), setup, counterparty_keys: cp_keys };
+        let (cseed, keys_now) = {
+            let slot = node.get_channel(&id).unwrap();
+            let g = slot.lock().unwrap();
+            match &*g {
+                ChannelSlot::Ready(c) => (c.keys.commitment_seed, c.keys.clone()),
+                _ => unreachable!(),
+            }
+        };
+        let handler = make_handler(&node, proto, peer, dbid);
+        let mut a = Adv {
+            world, node, node_id, id: id.clone(), peer, dbid, proto, handler, cctx, cseed, secp,
+            secrets: BTreeMap::new(), violations: vec![], history: vec![], answers: BTreeMap::new(), refused: 0,
+        };
+        let steps = 4 + rng.below(4);
+        for n in 0..steps {
+            if !a.validate(n, "") {
+                break;
+            }
+            if proto >= 5 && n >= 1 {
+                a.revoke_msg(n - 1, "");
+            }
+            if rng.chance(1, 3) {
+                a.restart();
+                n_restart += 1;
+            }
+            if n >= 2 || rng.chance(1, 2) {
+                a.probe(&mut rng);
+            }
+        }
+        a.restart();
+        n_restart += 1;
+        a.probe(&mut rng);
+        max_next = max_next.max(a.next());
+        n_replays += a.history.iter().filter(|h| h.starts_with("replay-")).count() as u64;
+        n_refused += a.refused;
+        for (k, v) in &a.answers {
+            *answers_total.entry(k.clone()).or_insert(0) += v;
+        }
+        // the Coq case: the secret keys and commitment seed of the channel, and the secrets that
+        // were handed out for (at most four of) the numbers asked -- the oldest, the newest, two others
+        let mut nums: Vec<u64> = a.secrets.keys().cloned().collect();
+        let mut pick: Vec<u64> = vec![];
+        if let Some(f) = nums.first() {
+            pick.push(*f);
+        }
+        if let Some(l) = nums.last() {
+            pick.push(*l);
+        }
+        nums.retain(|n| !pick.contains(n));
+        while pick.len() < 4 && !nums.is_empty() {
+            let i = rng.below(nums.len() as u64) as usize;
+            pick.push(nums.remove(i));
+        }
+        pick.sort();
+        pick.dedup();
+        let kid = keys_now.channel_keys_id();
+        let oracle = if matches!(style, KeyDerivationStyle::Ldk) {
+            let (idx, child) = ldk_child(&seed, &kid);
+            format!("[([3; {}], {})]", idx, coq_bytes(&child))
+        } else {
+            "[]".to_string()
+        };
+        let keyv: Vec<String> = vec![
+            coq_bytes(&keys_now.funding_key[..]),
+            coq_bytes(&keys_now.revocation_base_key[..]),
+            coq_bytes(&keys_now.htlc_base_key[..]),
+            coq_bytes(&keys_now.payment_key[..]),
+            coq_bytes(&keys_now.delayed_payment_base_key[..]),
+            coq_bytes(&keys_now.commitment_seed),
+        ];
+        let coq_secs: Vec<String> = pick
+            .iter()
+            .map(|n| format!("({}, {})", n, coq_bytes(&hex::decode(&a.secrets[n].0).unwrap())))
+            .collect();
+        let coq = format!(
+            "(({}, 0, {}, {}), {}, {}, {}, {})",
+            style_name(style),
+            coq_bytes(&seed),
+            coq_bytes(id.as_slice()),
+            oracle,
+            coq_list(&keyv),
+            coq_bytes(&kid),
+            coq_list(&coq_secs)
+        );
+        emit(
+            "CASE",
+            json!({"kind": "adv", "style": style_name(style), "proto": proto, "seed": hexs(&seed), "channel_id": hexs(id.as_slice()),
+                   "next_holder_commit_num": a.next(), "history": a.history, "asked_secret_numbers": a.secrets.keys().collect::<Vec<_>>(),
+                   "secret_numbers_in_coq": pick, "answers": a.answers, "refused_or_out_of_range": a.refused,
+                   "has_secrets": !a.secrets.is_empty(), "monitor_violations": a.violations, "coq": coq}),
+        );
+    }
+    emit(
+        "STATS",
+        json!({"kind": "keys-adv", "cases": args.n, "answers_checked": answers_total, "refused_or_out_of_range": n_refused,
+               "restarts": n_restart, "max_next_holder_commit_num": max_next, "replayed_requests": n_replays}),
+    );
+}
+
 fn main() {
     let argv: Vec<String> = std::env::args().collect();
     let args = parse_args(&argv[2..]);
     match argv[1].as_str() {
         "hist" => hist(&args),
         "store" => store(&args),
+        "adv" => adv(&args),
         other => panic!("unknown sub-domain {}", other),
     }
 }
